@@ -110,6 +110,11 @@ class Raw:
                 c1 = rnd.randrange(len(self.lines[ln]) + 1)
                 c2 = rnd.randrange(c1, len(self.lines[ln]) + 1)
                 rects.append(((ln, c1), (ln, c2)))
+        # block headers: a space after every compound-statement keyword (header-only reparse paths), both tiers
+        for t in toks:
+            if t.type == tokenize.NAME and t.string in ('try', 'else', 'finally', 'except', 'elif', 'if', 'while', 'for',
+                                                        'with', 'def', 'class', 'match', 'case'):
+                self.one_reparse(t.end[0] - 1, t.end[1], t.end[0] - 1, t.end[1], ' ')
         for (ln, col), (eln, ecol) in rects:
             old = splice(self.lines, '\0', ln, col, eln, ecol)
             same = '\n'.join(self.lines[ln:eln + 1])
@@ -218,6 +223,74 @@ class Raw:
                             if not isinstance(e, SyntaxError):
                                 self.fail('C03', key + ':fst_form', f'{desc} succeeds with source code but raises {e!r} '
                                           'with the same code as an FST')
+
+    def raw_puts_to(self, quick, rnd):
+        """raw replace from one node up to and including another node (`to=`): source == the requested splice and tree ==
+        a from-scratch parse of it, or nothing changes"""
+        root = self.fresh()
+        nodes = [(p, f) for p, f in node_paths(root) if p and isinstance(f.a, (ast.expr, ast.stmt)) and f.loc is not None]
+        pairs = []
+        for i, (p, f) in enumerate(nodes):
+            for q, g in nodes[i + 1:i + 40]:
+                if (g.ln, g.col) >= (f.end_ln, f.end_col) and isinstance(g.a, ast.expr) == isinstance(f.a, ast.expr):
+                    pairs.append((p, q))
+        def reconverge(p, q):   # paths that diverge and then agree again at a deeper level (common-ancestor computation)
+            d = [x == y for x, y in zip(p[:-1], q[:-1])]
+            return False in d and True in d[d.index(False):]
+        special = [pq for pq in pairs if reconverge(*pq)]
+        k = 25 if quick else 250
+        if len(pairs) > k:
+            pairs = rnd.sample(pairs, k)
+        pairs += [pq for pq in special[:8 if quick else 60] if pq not in pairs]
+        for p, q in pairs:
+            for code in ('zz', 'pass'):
+                r = self.fresh()
+                a, b = follow(r, p), follow(r, q)
+                if not a or not b:
+                    continue
+                self.ev += 1
+                src0, d0 = r.src, dump(r.a)
+                try:   # the designated text runs from the start of `a` to the end of `b`, both with their own parentheses
+                    pa, pb = a.pars(), b.pars()   # (a generator expression that shares the call's parentheses: inside them)
+                    starts = {(pa[0], pa[1])} | ({(a.ln, a.col + 1)} if isinstance(a.a, ast.GeneratorExp) else set())
+                    ends = {(pb[2], pb[3])} | ({(b.end_ln, b.end_col - 1)} if isinstance(b.a, ast.GeneratorExp) else set())
+                    exps = [splice(self.lines, code, s[0], s[1], e[0], e[1]) for s in starts for e in ends]
+                    exp = exps[0]
+                except Exception:
+                    continue
+                key = f'rawput_to:{self.name}:{p}->{q}:{code!r}'
+                desc = f'replace({code!r}, raw=True, to=<node at {q}>) at {p}'
+                try:
+                    a.replace(code, raw=True, to=b)
+                except Exception as e:
+                    self.counts['refused'] += 1
+                    self.distinct.add(('rawto-refused', p, q, code))
+                    self.after_raise(r, src0, d0, e, key, desc)
+                    valid = True
+                    for x in exps:
+                        try:
+                            ast.parse(x)
+                        except (SyntaxError, ValueError):
+                            valid = False
+                    if valid:
+                        self.fail('C10', key + ':refused_valid', f'{desc} raised {e!r} although the new whole source is '
+                                  'valid Python', new_source=exp[:300])
+                    continue
+                self.counts['ok'] += 1
+                self.distinct.add(('rawto', p, q, code))
+                if r.src not in exps:
+                    self.fail('C10', key + ':src', f'{desc} succeeded but the source is not the requested splice',
+                              got=r.src[:300], expected=exp[:300])
+                    continue
+                try:
+                    ast.parse(r.src)
+                except (SyntaxError, ValueError):
+                    self.fail('C10', key + ':accepted_invalid', f'{desc} succeeded although the new whole source is not '
+                              'valid Python', new_source=r.src[:300])
+                    continue
+                v = c01_violation(r)
+                if v:
+                    self.fail('C10', key + ':tree', f'{desc} succeeded but {v}', src_after=r.src[:300])
 
     # C11 --------------------------------------------------------------------------------------------------------
     def offset_sweep(self, quick, rnd):
@@ -339,6 +412,7 @@ def work(name, src, payload):
         r.reparse_sweep(quick, rnd)
     if 'rawput' in ops:
         r.raw_puts(quick, rnd)
+        r.raw_puts_to(quick, random.Random(zlib.crc32(f'12345:{name}:rawto'.encode())))
     if 'offset' in ops:
         r.offset_sweep(quick, rnd)
     return {'evaluations': r.ev, 'distinct': list(r.distinct), 'failures': r.failures, 'samples': r.samples,
